@@ -266,6 +266,49 @@ def real_run(kind, bl, comp, inl, fixedsize, postings, ops):
     return lst(out)
 
 
+def real_reset_readout(kind, bl, comp, inl, fixedsize, postings, ops):
+    """Run the cursor program, then reset(): the cursor must read the whole list again, exactly as a
+    freshly opened one does (C10: the posting list read back is the list written, whatever was read
+    before; C11: reset() returns to the start).  Returns (fresh, after_reset) readouts or None."""
+    from whoosh.codec.whoosh3 import W3LeafMatcher
+    err, st, ti = real_write(kind, bl, comp, inl, fixedsize, postings)
+    if err or ti.is_inlined():
+        return None
+    fmt = make_format(fixedsize)
+    off, length = ti.extent()
+
+    def openm():
+        return W3LeafMatcher(st.open_file("p"), off, length, fmt, byteids=(kind == "term"),
+                             scorer=MaxWeightScorer())
+
+    def readall(m):
+        out = []
+        guard = 0
+        while m.is_active() and guard < 100000:
+            out.append((show_id(kind, m.id()), rat(m.weight()), opt(hexs, m.value())))
+            m.next()
+            guard += 1
+        return out
+    fresh = readall(openm())
+    m = openm()
+    for op in ops:
+        try:
+            if op == "next":
+                m.next()
+            elif isinstance(op, tuple) and op[0] == "skip":
+                m.skip_to(op[1])
+            elif isinstance(op, tuple) and op[0] == "skipq":
+                m.skip_to_quality(op[1])
+        except Exception:  # noqa  (running past the end is part of the programs)
+            pass
+    try:
+        m.reset()
+        again = readall(m)
+    except Exception as e:  # noqa
+        again = "!" + exc_name(e)
+    return fresh, again
+
+
 # ------------------------------------------------------------------------------------------------
 # generators
 
